@@ -365,6 +365,7 @@ inductive UOp
   | closeExitSockets                                         -- `for s in list(self.exit_sockets.values()): await s.close()`
   | clearTable (k : RemKind)                                 -- `self.<table>.clear()`
   | clearEndpointRef                                         -- `if self.endpoint.tunnel_community is self: …set_tunnel_community(None)`
+  | unloadChildren                                           -- `while self.<children>: … await <child>.unload()`
 deriving Repr, DecidableEq
 
 structure ClassInfo where
@@ -372,6 +373,7 @@ structure ClassInfo where
   installsProxy : Bool
   hasCache : Bool
   hasDb : Bool
+  ownsChildren : Bool := false      -- some method constructs another overlay (the PexCommunity of an introduction point)
   script : List UOp
 deriving Repr
 
@@ -390,6 +392,7 @@ structure UState where
   relays : Nat := 0
   exits : Nat := 0                -- entries of exit_sockets
   openExit : Nat := 0             -- exit sockets whose transports / task manager are still alive
+  children : Nat := 0             -- overlays this overlay created and still runs (they are its resources)
   pc : Nat := 0                   -- index of the next script statement (the adversary's clock)
 deriving Repr
 
@@ -424,6 +427,7 @@ def UState.core (sleeps : RemKind → Bool → Bool) (s : UState) : UOp → USta
   | .closeExitSockets => { s with openExit := 0 }
   | .clearTable k => s.clear k
   | .clearEndpointRef => if s.w.tunnelRef = some s.self then { s with w := s.w.step (.setRef none) } else s
+  | .unloadChildren => { s with children := 0 }
 
 /-- statements that suspend `unload` while handlers / tasks of the overlay can still run (`tmShutdown` cancels everything
     before it suspends, so it is not one of them) -/
@@ -442,11 +446,12 @@ def Reg.lists (r : Reg) (l : Lid) : Bool := r.listeners.contains l || r.pmap.any
 def UState.canAcquire (s : UState) : Bool := !s.tmDown || s.w.inner.lists s.self || s.w.inner.lists s.proxy
 
 /-- One statement of `unload`.  While the statement is suspended and sockets can still be acquired, the adversary opens
-    `acq pc` further exit sockets — after the statement's own effect. -/
+    `acq pc` further exit sockets (and lets as many child overlays be started) — after the statement's own effect. -/
 def UState.step (sleeps : RemKind → Bool → Bool) (acq : Nat → Nat) (s : UState) (op : UOp) : UState :=
   let s1 := s.core sleeps op
   if op.awaits && s1.canAcquire then
-    { s1 with pc := s.pc + 1, openExit := s1.openExit + acq s.pc, exits := s1.exits + acq s.pc }
+    { s1 with pc := s.pc + 1, openExit := s1.openExit + acq s.pc, exits := s1.exits + acq s.pc,
+              children := s1.children + acq s.pc }        -- a delivered establish-intro starts a child overlay as well
   else { s1 with pc := s.pc + 1 }
 
 def UState.run (sleeps : RemKind → Bool → Bool) (acq : Nat → Nat) (s : UState) (script : List UOp) : UState :=
